@@ -38,6 +38,14 @@ def run(ctx):
                         unprotected=({"jku": "https://x.example/k"} if ser != "compact" and rng.random() < 0.3 else None))
             c.note = "ref-encrypted"
             cases.append(c)
+    # PBES2 with explicit iteration counts (small, default-sized, above common caps) and salts, reference -> joserfc
+    p2cs = [1, 1000, 4096, 16384, 16385, 20000] + ([100000, 310000] if ctx.tier == "thorough" else [])
+    for alg in ("PBES2-HS256+A128KW", "PBES2-HS384+A192KW", "PBES2-HS512+A256KW"):
+        for p2c in p2cs:
+            c = E.build(rng, alg, "A128GCM", rng.choice(["compact", "general"]), b"pbes2 " + str(p2c).encode(),
+                        header_extra={"p2c": p2c, "p2s": R.b64u(rng.randbytes(rng.choice([8, 16, 33]))).decode()}, kn=E.key_name(alg, "A128GCM", rng))
+            c.note = "ref-encrypted"
+            cases.append(c)
 
     def expect(case, impl):
         if impl[0] != "ok":
@@ -83,6 +91,23 @@ def run(ctx):
                 ctx.report(f"a JWE produced by joserfc ({alg}/{enc}, {ser}) is rejected by the independent implementation: {why}",
                            {"alg": alg, "enc": enc, "ser": ser, "value": v.decode() if isinstance(v, bytes) else v}, f"interop:impl->ref:{alg.split('+')[0]}")
             facts(ctx, alg, enc, ser, v)
+    # PBES2 with caller-chosen iteration counts, joserfc -> reference
+    for alg in ("PBES2-HS256+A128KW", "PBES2-HS512+A256KW"):
+        for p2c in p2cs:
+            kn = E.key_name(alg, "A128GCM", rng)
+            try:
+                v = jwe.encrypt_compact({"alg": alg, "enc": "A128GCM", "p2c": p2c}, b"pbes2", K.key(kn), algorithms=E.ALL_NAMES).encode()
+            except Exception as e:  # noqa: BLE001
+                ctx.report(f"joserfc could not encrypt with {alg} p2c={p2c}: {err_name(e)}", {"alg": alg, "p2c": p2c}, "encrypt:pbes2-p2c")
+                continue
+            ctx.count("impl-encrypts-ref-decrypts", (alg, "p2c", p2c), True, alg)
+            try:
+                ok, why = R.decrypt(v, E.native_priv(kn), None) == b"pbes2", "plaintext differs"
+            except R.RefReject as e:
+                ok, why = False, str(e)
+            if not ok:
+                ctx.report(f"a PBES2 JWE produced by joserfc with p2c={p2c} is rejected by the independent implementation: {why}",
+                           {"alg": alg, "p2c": p2c, "value": v.decode()}, f"interop:impl->ref:{alg.split('+')[0]}:p2c")
     other_info(ctx)
     vectors(ctx)
 
